@@ -74,6 +74,7 @@ func (r rngReader) Read(p []byte) (int, error) {
 }
 
 type SrvParams struct {
+	NoAdmin bool // the configuration names no AdminUID
 	// ProxyBook: method name -> [network, address]
 	ProxyBook map[string][]string
 	NBypass   int
@@ -118,6 +119,10 @@ func NewSrvWorld(c *Ctx, p SrvParams) *SrvWorld {
 		p.ProxyBook = map[string][]string{"shadowsocks": {"tcp", "10.0.0.3:8388"}}
 	}
 	raw := server.RawConfig{ProxyBook: p.ProxyBook, BypassUID: w.Bypass, RedirAddr: redirAddr, PrivateKey: w.PrivRaw, AdminUID: w.Admin}
+	if p.NoAdmin {
+		// a server set up without an administrator (and hence without a database)
+		raw.AdminUID = nil
+	}
 	if p.WithDB {
 		w.DBDir = scratchDir()
 		raw.DatabasePath = filepath.Join(w.DBDir, "userinfo.db")
